@@ -45,13 +45,15 @@ def run(ctx):
         calls.append([1, n, 0])
     calls.append([2, 0, 0])
     scen.append({"id": "range", "kind": "range", "calls": calls, "k": 30000 if quick else 300000})
+    # the same helpers fed boundary-valued entropy (all ones, the largest 63-bit words that round up in a float64, ...)
+    scen.append({"id": "range-scripted", "kind": "range", "calls": calls + [[1, 2147483647, 0], [1, 1073741824, 0], [0, 0, 2147483646]], "k": 500, "scripted": True})
     binary = ctx.go_build("./cmd/c12")
     traces = ctx.exec_scenarios(binary, scen, "c12", shards=12, timeout=1500)
     if len(traces) != len(scen) and not any(t.get("crashed") for t in traces):
         raise Inconclusive("%d scenarios, %d traces" % (len(scen), len(traces)))
     nev = sum(len(t["events"]) for t in traces)
     for t in traces:
-        if t["id"] in ("vose", "seeds0", "drbg", "range"):
+        if t["id"] in ("vose", "seeds0", "drbg", "range", "range-scripted"):
             ctx.sample({"scenario_id": t["id"], "events": t["events"][:2]})
     rejected = ctx.validate("DistTrace", "DistTrace.cfg", traces, label="trace validation", timeout=1800, max_rejects=6)
     ctx.log("%d scenarios, %d events, %d rejected" % (len(traces), nev, len(rejected)))
